@@ -120,6 +120,7 @@ func main() {
 	dur := flag.Duration("dur", time.Second, "duration")
 	seed := flag.Int64("seed", 1, "seed")
 	counter := flag.Bool("counter", false, "also check the Update counter (C05)")
+	nodelete := flag.Bool("nodelete", false, "no Delete calls (order 2: Delete is known finding K1)")
 	flag.Parse()
 	t := build(*typ, *order)
 	var wg sync.WaitGroup
@@ -154,7 +155,11 @@ func main() {
 						atomic.AddInt64(&incs, 1)
 					}
 				case r < 70:
-					t.del(k)
+					if *nodelete {
+						t.search(k)
+					} else {
+						t.del(k)
+					}
 				case r < 85:
 					t.search(k)
 				default:
